@@ -15,9 +15,7 @@ import (
 	"github.com/openfga/openfga/internal/verifharness/lib/scen"
 )
 
-const maxDepth = 25
-
-func runScenario(ctx context.Context, w *rec.Writer, r *rec.Rand, s *scen.Scenario, subjects []string) {
+func runScenario(ctx context.Context, w *rec.Writer, r *rec.Rand, s *scen.Scenario, subjects []string, maxDepth int) {
 	env, err := scen.NewEnv(ctx, s)
 	if err != nil {
 		if errors.Is(err, scen.ErrModelRejected) {
@@ -46,7 +44,7 @@ func runScenario(ctx context.Context, w *rec.Writer, r *rec.Rand, s *scen.Scenar
 	}
 	objects := s.Objects(subjects...)
 	atoms := in.Atoms(s, objects)
-	resolver, closer := scen.Resolver(scen.NewForcedPlanner("default"), maxDepth)
+	resolver, closer := scen.Resolver(scen.NewForcedPlanner("default"), uint32(maxDepth))
 	defer closer()
 	var svs []rec.V
 	for _, sub := range subjects {
@@ -71,7 +69,7 @@ func runScenario(ctx context.Context, w *rec.Writer, r *rec.Rand, s *scen.Scenar
 		}
 		svs = append(svs, rec.L(in.Subject(sub), rec.L(pxs...), rec.L(res...)))
 	}
-	w.Case(map[string]any{"scenario": s, "subjects": subjects, "text": s.String()},
+	w.Case(map[string]any{"scenario": s, "subjects": subjects, "max_depth": maxDepth, "text": s.String()},
 		rec.I(1), model, conds, rec.L(tvs...), atoms, rec.I(maxDepth), rec.L(svs...))
 }
 
@@ -92,11 +90,15 @@ func main() {
 			var d struct {
 				Scenario *scen.Scenario `json:"scenario"`
 				Subjects []string       `json:"subjects"`
+				MaxDepth int            `json:"max_depth"`
 			}
 			if json.Unmarshal(sc.Bytes(), &d) != nil || d.Scenario == nil {
 				continue
 			}
-			runScenario(ctx, w, rec.NewRand(1), d.Scenario, d.Subjects)
+			if d.MaxDepth == 0 {
+				d.MaxDepth = 25
+			}
+			runScenario(ctx, w, rec.NewRand(1), d.Scenario, d.Subjects, d.MaxDepth)
 		}
 		return
 	}
@@ -104,6 +106,10 @@ func main() {
 	for i := 0; i < o.N; i++ {
 		rr := r.Fork()
 		s := scen.Generate(rr, scen.DefaultOpts())
-		runScenario(ctx, w, rr, s, nil)
+		runScenario(ctx, w, rr, s, nil, 25)
+		if rr.Chance(1, 3) {
+			// the same scenario under a small resolution-depth limit: exercises the depth counter
+			runScenario(ctx, w, rr, s, nil, rr.Range(1, 4))
+		}
 	}
 }
